@@ -38,7 +38,7 @@ var lay = layouts[0]
 func lastSeg(s string) string { return s[strings.LastIndex(s, "/")+1:] }
 
 // behaviours of a generator for the (single enabled) type T of each package
-var behaviours = []string{"render", "nothing", "skip", "ignore", "ignore+render", "render-only-in-defer", "blank-lines-only"}
+var behaviours = []string{"render", "nothing", "skip", "ignore", "ignore+render", "render-only-in-defer", "blank-lines-only", "render+skip"}
 
 func action(b string) pipe.Action {
 	switch b {
@@ -55,6 +55,9 @@ func action(b string) pipe.Action {
 	case "render-only-in-defer":
 		// collect-then-emit: nothing from GenerateType, everything from a Defer callback
 		return pipe.Action{Defers: []pipe.Action{{Render: "var V_$T_$G = 3\n"}}}
+	case "render+skip":
+		// renders a registration line for the type and then says "not for me" (ErrSkip is no error: what was rendered stays)
+		return pipe.Action{Render: "var V_$T_$G = 4\n", Ret: "skip"}
 	case "blank-lines-only":
 		// the generator writes, but nothing a parser would see (a template whose conditions were all false)
 		return pipe.Action{Render: "\n\n"}
@@ -63,7 +66,7 @@ func action(b string) pipe.Action {
 }
 
 func renders(b string) bool {
-	return b == "render" || b == "ignore+render" || b == "render-only-in-defer"
+	return b == "render" || b == "ignore+render" || b == "render-only-in-defer" || b == "render+skip"
 }
 
 // pre-existing files of a package (bit i of the subset index)
